@@ -1,5 +1,5 @@
 """Human-written level text per claimed property (consumed by gen_manifest.py)."""
-HOOK_COMMITS = ["e648131"]
+HOOK_COMMITS = ["e648131", "c2c8839"]
 NOT_YET = {}
 META = {
     "C28": {
@@ -26,5 +26,20 @@ META = {
         "text": "Tick arithmetic incl. u32 wrap (a multiple of 61 within any 61 pops), service of the shared queue on such a pop, and idle theorem (a local pop returns none only if every queue is empty) for all reachable states with capacity >= 1. Tie: differential runs with long pop bursts and idle-sibling patterns; starvation counter and idle check on the implementation history.",
         "note": "Trusted: Lean kernel; models; capacity 0 idle case covered by correspondence only.",
         "design_ref": "DESIGN.md §4 C06",
+    },
+    "C16": {
+        "text": "Theorem C16_spec_holds: for every kernel script (unbounded list of partial/EAGAIN/EINTR/error answers), wait script, buffer or iovec shape, blocking mode and time limit, the executable C16 specification (return = bytes moved; -1 only with nothing moved and the failing call's errno; zero-length => 0) has no violated clause on the model; the same Lean predicate is evaluated on the real calls' observed behaviour (14 hooked calls, scripted kernel through fn_ptr, byte-level placement check).",
+        "note": "Trusted: Lean kernel; model of the four retry-loop macros; scripted kernel + wait interception + virtual clock hooks; real socketpair for fd facts. Not modelled: connect, accept, io_uring layer, coroutine-state bookkeeping of the facade.",
+        "design_ref": "DESIGN.md §4 C16",
+    },
+    "C17": {
+        "text": "Theorem C17_spec_holds / C17_requests_are_unfilled: every request of a vectored hooked call is the caller's whole (still unfilled) array with a matching element count, for every script and shape; the executable spec (ranges = exactly the unfilled bytes in order, inside the caller's buffers; count = array length) is evaluated on the requests the scripted kernel really received.",
+        "note": "Trusted: as C16. For msghdr the harness reads at most shape-many elements of the passed array (no read past a correct array).",
+        "design_ref": "DESIGN.md §4 C17",
+    },
+    "C18": {
+        "text": "Theorems: blocking mode restored on every path (C18_flag_restored), a caller-non-blocking descriptor is never waited on and gets -1/EAGAIN immediately (C18_nonblocking_never_waits, C18_nonblocking_immediate), for every script. Tie: real fcntl(F_GETFL) before/after each of 14 hooked calls in both modes, recorded waits.",
+        "note": "Trusted: as C16. The 'hook applies process-wide' clause (dylib interposition) is not covered.",
+        "design_ref": "DESIGN.md §4 C18",
     },
 }
